@@ -87,6 +87,7 @@ func Load(repo string, extraContracts string) (*Loaded, error) {
 	for _, c := range cs.Order {
 		if c.IsIface {
 			eng.ifContract[c.Key] = c
+			eng.ifContractPkg[c.PkgPath+"\x00"+c.Key] = c
 		}
 		if c.External {
 			eng.extContract[c.Key] = c
@@ -229,32 +230,71 @@ func verifyAll(L *Loaded, sel func(c *Contract) bool, workDir string, timeout ti
 		}
 	}
 	results := make([]*OblResult, len(jobs))
-	var wg sync.WaitGroup
-	sem := make(chan struct{}, 7)
-	for i, j := range jobs {
-		wg.Add(1)
-		go func(i int, j job) {
-			defer wg.Done()
-			sem <- struct{}{}
-			defer func() { <-sem }()
-			r := Solve(j.file, j.qf, j.lia, timeout, all, j.o.Cover)
-			or := &OblResult{O: j.o, C: j.fr.Contract, R: r, File: j.file}
-			switch {
-			case j.o.Cover && r.Status == "sat":
-				or.Status = "cover-ok"
-			case j.o.Cover && r.Status == "unsat":
-				or.Status = "cover-failed"
-			case j.o.Cover:
-				or.Status = "cover-unknown"
-			case r.Status == "unsat":
-				or.Status = "proved"
-			default:
-				or.Status = "failed"
-			}
-			results[i] = or
-		}(i, j)
+	classify := func(j job, r *SolveResult) *OblResult {
+		or := &OblResult{O: j.o, C: j.fr.Contract, R: r, File: j.file}
+		switch {
+		case j.o.Cover && r.Status == "sat":
+			or.Status = "cover-ok"
+		case j.o.Cover && r.Status == "unsat":
+			or.Status = "cover-failed"
+		case j.o.Cover:
+			or.Status = "cover-unknown"
+		case r.Status == "unsat":
+			or.Status = "proved"
+		default:
+			or.Status = "failed"
+		}
+		return or
 	}
-	wg.Wait()
+	undecided := func(or *OblResult) bool {
+		return or.Status == "cover-unknown" || (or.Status == "failed" && or.R.Status != "sat")
+	}
+	// Scheduling: a first pass with a short limit and many obligations in flight settles the easy
+	// ones; the rest are re-run with the full limit and few in flight, and what is still undecided
+	// (at most a handful) once more alone with twice the limit, so that a machine under load does
+	// not turn a slow proof into an alarm.
+	runPass := func(idx []int, par int, to time.Duration) {
+		var wg sync.WaitGroup
+		sem := make(chan struct{}, par)
+		for _, i := range idx {
+			wg.Add(1)
+			go func(i int) {
+				defer wg.Done()
+				sem <- struct{}{}
+				defer func() { <-sem }()
+				j := jobs[i]
+				results[i] = classify(j, Solve(j.file, j.qf, j.lia, to, all, j.o.Cover))
+			}(i)
+		}
+		wg.Wait()
+	}
+	var idx []int
+	for i := range jobs {
+		idx = append(idx, i)
+	}
+	short := 12 * time.Second
+	if timeout < short {
+		short = timeout
+	}
+	runPass(idx, 6, short)
+	var rest []int
+	for _, i := range idx {
+		if undecided(results[i]) {
+			rest = append(rest, i)
+		}
+	}
+	if len(rest) > 0 && timeout > short {
+		runPass(rest, 2, timeout)
+		var last []int
+		for _, i := range rest {
+			if undecided(results[i]) {
+				last = append(last, i)
+			}
+		}
+		if len(last) > 0 && len(last) <= 4 {
+			runPass(last, 1, 2*timeout)
+		}
+	}
 	ors = results
 	return frs, ors
 }
